@@ -418,15 +418,40 @@ def _mk_dataset(nprng, rng, n, centre, spread_deg, t0, span_s, nan_share, grid=F
                       coords={"collocation": nprng.permutation(n) * 3 + 7})
 
 
+def _mk_gridded(nprng, rng, n_lines, n_pos, centre, spread_deg, t0, span_s, nan_share):
+    """a swath: time per scan line, lat / lon / id per (scan line, scan position); both dimensions uniquely labelled"""
+    import xarray as xr
+    lat = _np.clip(centre[0] + nprng.normal(size=(n_lines, n_pos)) * spread_deg, -90, 90)
+    lon = ((centre[1] + nprng.normal(size=(n_lines, n_pos)) * spread_deg / max(0.05, _np.cos(_np.radians(min(89.0, abs(centre[0])))))) + 180) % 360 - 180
+    for k in range(n_lines):
+        for q in range(n_pos):
+            if rng.random() < nan_share:
+                lat[k, q] = _np.nan
+    t = t0 + (nprng.uniform(0, span_s, size=n_lines) * 1e9).astype("int64").astype("timedelta64[ns]")
+    return xr.Dataset({"lat": (("scnline", "scnpos"), lat), "lon": (("scnline", "scnpos"), lon), "time": ("scnline", t.astype("datetime64[ns]")),
+                       "id": (("scnline", "scnpos"), _np.arange(n_lines * n_pos).reshape(n_lines, n_pos))},
+                      coords={"scnline": nprng.permutation(n_lines) * 2 + 11, "scnpos": _np.arange(n_pos) + 1})
+
+
+def _flat(ds):
+    """(lat, lon, time_ns, id) as flat arrays, whatever the structure of the dataset"""
+    if ds.lat.ndim == 1:
+        return ds.lat.values, ds.lon.values, ds.time.values.astype("datetime64[ns]").astype("int64"), ds.id.values
+    n_l, n_p = ds.lat.shape
+    tt = _np.repeat(ds.time.values.astype("datetime64[ns]").astype("int64"), n_p)
+    return ds.lat.values.ravel(), ds.lon.values.ravel(), tt, ds.id.values.ravel()
+
+
 def _brute(a, b, max_km, max_interval_ns, start, end):
     from typhon.constants import earth_radius
     R = earth_radius / 1000.0
 
-    def unit(ds):
-        la, lo = _np.radians(ds.lat.values), _np.radians(ds.lon.values)
+    def unit(lat, lon):
+        la, lo = _np.radians(lat), _np.radians(lon)
         return _np.stack([_np.cos(la) * _np.cos(lo), _np.cos(la) * _np.sin(lo), _np.sin(la)], axis=1)
-    ua, ub = unit(a), unit(b)
-    ta, tb = a.time.values.astype("datetime64[ns]").astype("int64"), b.time.values.astype("datetime64[ns]").astype("int64")
+    la_a, lo_a, ta, ida = _flat(a)
+    la_b, lo_b, tb, idb = _flat(b)
+    ua, ub = unit(la_a, lo_a), unit(la_b, lo_b)
     out = {}
     for i in range(len(ta)):
         if _np.isnan(ua[i]).any() or not (start <= ta[i] <= end):
@@ -436,7 +461,7 @@ def _brute(a, b, max_km, max_interval_ns, start, end):
                 continue
             d = R * float(_np.sqrt(((ua[i] - ub[j]) ** 2).sum()))
             dt = abs(int(ta[i]) - int(tb[j]))
-            out[(i, j)] = (d, dt, d <= max_km and dt < max_interval_ns)
+            out[(int(ida[i]), int(idb[j]))] = (d, dt, d <= max_km and dt < max_interval_ns)       # keyed by the carried ids
     return out
 
 
@@ -456,7 +481,10 @@ def bounded_collocate(rng, tier):
         n1, n2 = rng.choice([1, 2, 3, 8, 40]), rng.choice([1, 2, 3, 8, 40])
         centre = rng.choice([(0.0, 10.0), (52.0, 10.0), (89.7, 0.0), (-30.0, 179.9), (10.0, -179.95)])
         spread = rng.choice([0.0005, 0.02, 0.2])          # (0.0005 deg: every point collocates with every other -- all stored, found unsorted)
-        a = _mk_dataset(nprng, rng, n1, centre, spread, t0, 120.0, 0.1)
+        if rng.random() < 0.3:            # a gridded swath as primary (flattened by _flat_to_main_coord)
+            a = _mk_gridded(nprng, rng, rng.choice([1, 2, 5]), rng.choice([1, 3, 4]), centre, spread, t0, 120.0, 0.1)
+        else:
+            a = _mk_dataset(nprng, rng, n1, centre, spread, t0, 120.0, 0.1)
         b = _mk_dataset(nprng, rng, n2, centre, spread, t0, 120.0, 0.1)
         km = rng.choice([1.0, 5.0, 20.0])
         secs_ = rng.choice([0.5, 1.5, 10, 45.25, 300])
@@ -499,6 +527,7 @@ def bounded_collocate(rng, tier):
                     if d_true is not None and (abs(dist[q] - d_true) > 1e-6 * (1 + d_true) or int(itv[q].astype("timedelta64[s]").astype("int64")) != dt_true // 10**9):
                         bad.append((key, float(dist[q]), d_true, str(itv[q]), dt_true))
                 n_stored = (res[g1 + "/id"].size, res[g2 + "/id"].size)
+                ids1, ids2 = _np.asarray(ids1).astype("int64"), _np.asarray(ids2).astype("int64")
                 if len(set(ids1.tolist())) != n_stored[0] or len(set(ids2.tolist())) != n_stored[1]:
                     bad.append(("a stored point takes part in no pair", n_stored))
             problems = []
